@@ -19,6 +19,11 @@ import Bng.Model.AcctSpec
     final                          => sess=.. pend=.. queue=.. dur=..
     an op whose armed crash point fired => crashed@<marker> acc=.. ord=.. ab=.. dur=..
     an op on a dead instance       => dead
+    <ans> letters: u = answered, d = not received, l/L = accepted by the server but the client sees a failure
+    (reply refused / no reply); an accepted record the client got no acknowledgement for is printed with `~`.
+    `@<marker>:deq|retry:<ans>` after start/interim/stop/shutdown = a step of the background processor executed
+    while the call is parked in front of that marker (reported as inj=<marker>:<res>|<ord>|<ab>).
+    `!k~` = crash in the middle of the file write of the k-th step (crashed@<marker>~).
 
   The iteration orders of Go maps and of the drain goroutines (`ord=`, `q=`) are taken from the
   implementation's observation and handed to the model as the operation's `order` parameter.
@@ -45,6 +50,10 @@ def showRec (r : Rec) : String :=
   | .stop => s!"stop/s{r.sid}/i{r.ident}/{r.cause}/{showOct r.inOct}/{showOct r.outOct}"
 
 def joinOr (xs : List String) : String := if xs.isEmpty then "-" else ",".intercalate xs
+
+/-- the records accepted since the log had `n` entries; `~` marks those the client got no acknowledgement for -/
+def showAcc (σ : Acct.State) (n : Nat) : String :=
+  joinOr (((σ.log.drop n).zip (σ.logAck.drop n)).map fun (r, b) => showRec r ++ (if b then "" else "~"))
 
 def kindName : Kind → String
   | .start => "start" | .interim => "interim" | .stop => "stop"
@@ -77,20 +86,52 @@ def showVol (σ : Acct.State) : String :=
 
 def dropS (s : String) (n : Nat) : String := String.ofList (s.toList.drop n)
 
-def parseAns (s : String) : Option (List Bool) :=
+def parseAns (s : String) : Option (List Ans) :=
   if s == "-" then some [] else
-  s.toList.mapM fun c => if c = 'u' then some true else if c = 'd' then some false else none
+  s.toList.mapM fun c =>
+    if c = 'u' then some Ans.up else if c = 'd' then some Ans.down
+    else if c = 'l' || c = 'L' then some Ans.lost else none
 
-/-- strip a trailing `!k` -/
-def splitCrash (toks : List String) : Option (List String × Nat) :=
+/-- strip a trailing `!k` (crash in front of the k-th marker) or `!k~` (crash inside the k-th step's write) -/
+def splitCrash (toks : List String) : Option (List String × Nat × Bool) :=
   match toks.reverse with
   | last :: rest =>
     if last.startsWith "!" then
-      match (dropS last 1).toNat? with
-      | some k => if k > 0 then some (rest.reverse, k) else none
+      let body := dropS last 1
+      let torn := body.endsWith "~"
+      let num := if torn then String.ofList (body.toList.take (body.length - 1)) else body
+      match num.toNat? with
+      | some k => if k > 0 then some (rest.reverse, k, torn) else none
       | none => none
-    else some (toks, 0)
+    else some (toks, 0, false)
   | [] => none
+
+/-- a processor step executed while the API call is parked in front of marker `at` -/
+structure Inj where
+  mark : Nat
+  retry : Bool
+  ans : List Ans
+  order : List Nat := []
+  done : Bool := false
+  obs : String := "-"
+
+/-- strip trailing `@<marker>:deq|retry:<ans>` tokens -/
+def splitInject (toks : List String) : Option (List String × List Inj) :=
+  let rec go (rev : List String) (acc : List Inj) : Option (List String × List Inj) :=
+    match rev with
+    | t :: rest =>
+      if t.startsWith "@" then
+        match (dropS t 1).splitOn ":" with
+        | [m, k, a] =>
+          match m.toNat?, parseAns a with
+          | some m, some a =>
+            if (k == "deq" || k == "retry") && [1, 2, 3, 4, 5, 6, 17, 9, 19].contains m
+            then go rest ({ mark := m, retry := k == "retry", ans := a } :: acc) else none
+          | _, _ => none
+        | _ => none
+      else some (rev.reverse, acc)
+    | [] => some ([], acc)
+  go toks.reverse []
 
 def field (impl : String) (name : String) : Option String :=
   (splitTokens impl).findSome? fun t =>
@@ -109,7 +150,10 @@ def parseOct (s : String) : Option AcctWire.Octets :=
 
 def zeroOct : AcctWire.Octets := { low := 0, giga := none }
 
-def parseWRec (s : String) : Option AcctSpec.WRec :=
+def parseWRec (s0 : String) : Option AcctSpec.WRec :=
+  let unacked := s0.endsWith "~"
+  let s := if unacked then String.ofList (s0.toList.take (s0.length - 1)) else s0
+  (fun (r : AcctSpec.WRec) => { r with acked := !unacked }) <$>
   match s.splitOn "/" with
   | k :: sid :: ident :: rest => do
     let sid ← parseTagged 's' sid
@@ -158,20 +202,26 @@ def commonEvents (impl : String) : List AcctSpec.Ev :=
     | some a => if a == "-" then [] else (a.splitOn ",").filterMap parseWRec
     | none => []
   let ab := match field impl "ab" with | some a => parseList 's' a | none => []
+  -- Stops abandoned by processor steps that ran inside this call: inj=<marker>:<res>|<ord>|<ab>
+  let abInj := (splitTokens impl).flatMap fun t =>
+    if t.startsWith "inj=" then
+      match t.splitOn "|" with
+      | [_, _, a] => parseList 's' a
+      | _ => []
+    else []
   let crashed := impl.startsWith "crashed@"
   let dur := match field impl "dur" with
     | some d => let (f, p) := parseDur d; [AcctSpec.Ev.durable f p]
     | none => []
-  acc.map .accepted ++ ab.map .abandoned ++ (if crashed then [.crash] else []) ++ dur
+  acc.map .accepted ++ (ab ++ abInj).map .abandoned ++ (if crashed then [.crash] else []) ++ dur
 
 /-! ### the model's observation of one call -/
 
-inductive CallKind | plain | proc | drain | restart
+inductive CallKind | plain | drain | restart
   deriving DecidableEq
 
 def showOrd (k : CallKind) (σ : Acct.State) : String :=
   match k with
-  | .proc => joinOr (σ.ord.map fun i => s!"r{i}")
   | .drain => joinOr (σ.ord.map fun i => s!"s{i}")
   | _ => "-"
 
@@ -179,35 +229,119 @@ def resName : Res → String
   | .ok => "ok" | .exists_ => "exists" | .notfound => "notfound" | .skip => "skip" | .empty => "empty"
   | .done => "done" | .alive => "alive" | .dead => "dead" | .busy => "dead" | .none => "none"
 
-def runCall (σ0 : Acct.State) (op : Op) (k : CallKind) (answers : List Bool) (crashAt : Nat) :
-    Acct.State × String :=
+def nextAns (f : Frame) (answers : List Ans) : Ans × List Ans :=
+  if f.sends then (match answers with | a :: t => (a, t) | [] => (Ans.up, [])) else (Ans.up, answers)
+
+/-- run the processor step in progress to completion; `crashAt = k` crashes in front of its k-th marker -/
+partial def pfinish (σ : Acct.State) (answers : List Ans) (crashAt : Nat) : Acct.State × Option Nat :=
+  match σ.vol.ppc with
+  | none => (σ, none)
+  | some f =>
+    if crashAt = 1 then (Acct.step σ .crash, some (markerOf f))
+    else
+      let (a, rest) := nextAns f answers
+      pfinish (Acct.step σ (.ptick a)) rest (crashAt - 1)
+
+def abSince (σ0 σ : Acct.State) : String :=
+  joinOr ((σ.abandoned.take (σ.abandoned.length - σ0.abandoned.length)).reverse.map fun s => s!"s{s}")
+
+/-- one injected processor step, run to completion -/
+def runInj (σ : Acct.State) (inj : Inj) : Acct.State × Inj :=
+  let σ1 := Acct.step σ (if inj.retry then .retry inj.order else .deq)
+  if σ1.pres == .dead || σ1.pres == .busy then (σ1, { inj with done := true, obs := "dead|-|-" })
+  else if σ1.pres == .empty then (σ1, { inj with done := true, obs := "empty|-|-" })
+  else
+    let (σ2, _) := pfinish σ1 inj.ans 0
+    let ord := joinOr (σ2.pord.map fun i => s!"r{i}")
+    (σ2, { inj with done := true, obs := s!"done|{ord}|{abSince σ σ2}" })
+
+def tornApplies (f : Frame) (σ : Acct.State) : Bool :=
+  match f with
+  | .startPersist _ | .stopPersist _ => true
+  | .persistPending => !σ.vol.pending.isEmpty
+  | _ => false
+
+/-- run the API call in progress to completion: answers are consumed by the transmitting steps in order
+    (missing = up); `crashAt = k`: crash in front of the k-th marker, or (torn) inside the k-th step's file
+    write if it has one; injected processor steps run when their marker is reached for the first time -/
+partial def finish (σ : Acct.State) (answers : List Ans) (crashAt : Nat) (torn : Bool) (injs : List Inj) :
+    Acct.State × Option (Nat × Bool) × List Inj :=
+  match σ.vol.pc with
+  | none => (σ, none, injs)
+  | some f =>
+    if crashAt = 1 && !torn then (Acct.step σ .crash, some (markerOf f, false), injs)
+    else
+      let rec pick (pre : List Inj) : List Inj → Acct.State × List Inj
+        | [] => (σ, pre.reverse)
+        | i :: rest =>
+          if i.mark = markerOf f && !i.done then
+            let (σ', i') := runInj σ i
+            (σ', pre.reverse ++ i' :: rest)
+          else pick (i :: pre) rest
+      let (σ, injs) := pick [] injs
+      if crashAt = 1 && torn && tornApplies f σ then (Acct.step σ .crashTorn, some (markerOf f, true), injs)
+      else
+        let (a, rest) := nextAns f answers
+        finish (Acct.step σ (.tick a)) rest (crashAt - 1) torn injs
+
+def showInj (injs : List Inj) : String :=
+  String.join (injs.map fun i => s!" inj={i.mark}:{if i.done then i.obs else "-"}")
+
+def runCall (σ0 : Acct.State) (op : Op) (k : CallKind) (answers : List Ans) (crashAt : Nat) (torn : Bool)
+    (injs : List Inj) : Acct.State × String :=
   let σ1 := Acct.step σ0 op
   if σ1.res == .dead || σ1.res == .busy then (σ1, "dead")
   else if σ1.res == .alive then (σ1, "alive")
   else
-    let (σ2, crashed) := Acct.finish 100000 σ1 answers crashAt
-    let acc := joinOr ((σ2.log.drop σ0.log.length).map showRec)
-    let ab := joinOr ((σ2.abandoned.take (σ2.abandoned.length - σ0.abandoned.length)).reverse.map fun s => s!"s{s}")
+    let (σ2, crashed, injs) := finish σ1 answers crashAt torn injs
+    let acc := showAcc σ2 σ0.log.length
     match crashed with
-    | some m => (σ2, s!"crashed@{m} acc={acc} ord={showOrd k σ2} ab={ab} dur={showDur σ2.dur}")
+    | some (m, t) =>
+      (σ2, s!"crashed@{m}{if t then "~" else ""} acc={acc} ord={showOrd k σ2} ab=- dur={showDur σ2.dur}{showInj injs}")
     | none =>
       match k with
-      | .plain => (σ2, s!"{resName σ2.res} acc={acc}")
-      | .proc =>
-        if σ2.res == .empty then (σ2, "empty")
-        else (σ2, s!"done acc={acc} ord={showOrd k σ2} ab={ab}")
-      | .drain => (σ2, s!"ok acc={acc} ord={showOrd k σ2} dur={showDur σ2.dur}")
+      | .plain => (σ2, s!"{resName σ2.res} acc={acc}{showInj injs}")
+      | .drain => (σ2, s!"ok acc={acc} ord={showOrd k σ2} dur={showDur σ2.dur}{showInj injs}")
       | .restart => (σ2, s!"ok acc={acc} q={joinOr (σ2.vol.queue.map fun i => s!"r{i}")}")
+
+/-- a `deq` / `retry` operation of the trace: the processor step alone -/
+def runProc (σ0 : Acct.State) (op : Op) (answers : List Ans) (crashAt : Nat) : Acct.State × String :=
+  let σ1 := Acct.step σ0 op
+  if σ1.pres == .dead || σ1.pres == .busy then (σ1, "dead")
+  else if σ1.pres == .empty then (σ1, "empty")
+  else
+    let (σ2, crashed) := pfinish σ1 answers crashAt
+    let acc := showAcc σ2 σ0.log.length
+    let ord := joinOr (σ2.pord.map fun i => s!"r{i}")
+    match crashed with
+    | some m => (σ2, s!"crashed@{m} acc={acc} ord={ord} ab={abSince σ0 σ2} dur={showDur σ2.dur}")
+    | none => (σ2, s!"done acc={acc} ord={ord} ab={abSince σ0 σ2}")
+
+/-- the retry orders the implementation reported for the injected steps: `inj=<marker>:done|r2,r1|-` -/
+def injOrders (impl : String) (injs : List Inj) : List Inj :=
+  injs.map fun i =>
+    let pre := s!"inj={i.mark}:"
+    match (splitTokens impl).find? (fun t => t.startsWith pre) with
+    | some t =>
+      match (dropS t pre.length).splitOn "|" with
+      | [_, ord, _] => { i with order := parseList 'r' ord }
+      | _ => i
+    | none => i
 
 def step (st : St) (toks0 : List String) (impl : String) : St × LineResult :=
   match splitCrash toks0 with
   | none => (st, { modelObs := "badop" })
-  | some (toks, crashAt) =>
+  | some (toks1, crashAt, torn) =>
+  match splitInject toks1 with
+  | none => (st, { modelObs := "badop" })
+  | some (toks, injs0) =>
+  let injs := injOrders impl injs0
   match toks with
-  | ["new", mr, qc] =>
+  | "new" :: mr :: qc :: rest =>
     match st.model, mr.toNat?, qc.toNat? with
     | none, some mr, some qc =>
-      if mr ≥ 1 ∧ qc ≥ 1 ∧ crashAt = 0 then
+      let okRest : Bool := match rest with | [] => true | [t] => decide ((t.toNat?.getD 0) ≥ 1) | _ => false
+      if mr ≥ 1 ∧ qc ≥ 1 ∧ crashAt = 0 ∧ injs.isEmpty ∧ okRest = true then
         ({ model := some (Acct.init { maxRetries := mr, queueCap := qc }), mon := {} }, { modelObs := "ok" })
       else (st, { modelObs := "badop" })
     | _, _, _ => (st, { modelObs := "badop" })
@@ -220,20 +354,21 @@ def step (st : St) (toks0 : List String) (impl : String) : St × LineResult :=
         (({ model := some σ', mon := mon' } : St),
          ({ modelObs := obs, viols := vs.map fun (n, sid, d) => (n, clauseOf σ' n sid, d) } : LineResult))
       let bad : St × LineResult := (st, { modelObs := "badop" })
+      let apiOnly := injs.isEmpty
       match toks with
       | ["ctr", s, i, o] =>
         match parseTagged 's' s, parseHex i, parseHex o with
         | some s, some i, some o =>
-          if crashAt ≠ 0 ∨ i ≥ 2 ^ 64 ∨ o ≥ 2 ^ 64 then bad else
+          if crashAt ≠ 0 ∨ !apiOnly ∨ i ≥ 2 ^ 64 ∨ o ≥ 2 ^ 64 then bad else
           finishLine (Acct.step σ (.ctr s (UInt64.ofNat i) (UInt64.ofNat o))) "ok"
             [.ctr s (UInt64.ofNat i) (UInt64.ofNat o)] []
         | _, _, _ => bad
       | ["crash"] =>
-        if crashAt ≠ 0 then bad else
+        if crashAt ≠ 0 ∨ !apiOnly then bad else
         let σ' := Acct.step σ .crash
         finishLine σ' s!"ok dur={showDur σ'.dur}" [.crash] []
       | ["final"] =>
-        if crashAt ≠ 0 then bad else
+        if crashAt ≠ 0 ∨ !apiOnly then bad else
         -- the directory is judged at the end only when nothing volatile is left to deliver
         let quiet := (field impl "pend" == some "-") && (field impl "queue" == some "-")
         let obs := s!"{showVol σ} dur={showDur σ.dur}"
@@ -242,14 +377,15 @@ def step (st : St) (toks0 : List String) (impl : String) : St × LineResult :=
       | ["restart", a] =>
         match parseAns a with
         | some ans =>
+          if !apiOnly then bad else
           let order := match field impl "q" with | some q => parseList 'r' q | none => []
-          let (σ', obs) := runCall σ (.restart order) .restart ans crashAt
+          let (σ', obs) := runCall σ (.restart order) .restart ans crashAt torn []
           finishLine σ' obs [] []
         | none => bad
       | ["start", s, i, a] =>
         match parseTagged 's' s, parseTagged 'i' i, parseAns a with
         | some s, some i, some ans =>
-          let (σ', obs) := runCall σ (.start s i) .plain ans crashAt
+          let (σ', obs) := runCall σ (.start s i) .plain ans crashAt torn injs
           let called := !(impl.startsWith "exists") && !(impl.startsWith "dead")
           finishLine σ' obs (if called then [.startCalled s i] else [])
             (if impl.startsWith "ok" then [.startReturned s] else [])
@@ -257,33 +393,35 @@ def step (st : St) (toks0 : List String) (impl : String) : St × LineResult :=
       | ["interim", s, a] =>
         match parseTagged 's' s, parseAns a with
         | some s, some ans =>
-          let (σ', obs) := runCall σ (.interim s) .plain ans crashAt
+          let (σ', obs) := runCall σ (.interim s) .plain ans crashAt torn injs
           finishLine σ' obs [] []
         | _, _ => bad
       | ["stop", s, c, a] =>
         match parseTagged 's' s, c.toNat?, parseAns a with
         | some s, some c, some ans =>
-          let (σ', obs) := runCall σ (.stop s c) .plain ans crashAt
+          let (σ', obs) := runCall σ (.stop s c) .plain ans crashAt torn injs
           finishLine σ' obs [] []
         | _, _, _ => bad
       | ["deq", a] =>
         match parseAns a with
         | some ans =>
-          let (σ', obs) := runCall σ .deq .proc ans crashAt
+          if !apiOnly ∨ torn then bad else
+          let (σ', obs) := runProc σ .deq ans crashAt
           finishLine σ' obs [] []
         | none => bad
       | ["retry", a] =>
         match parseAns a with
         | some ans =>
+          if !apiOnly ∨ torn then bad else
           let order := match field impl "ord" with | some q => parseList 'r' q | none => []
-          let (σ', obs) := runCall σ (.retry order) .proc ans crashAt
+          let (σ', obs) := runProc σ (.retry order) ans crashAt
           finishLine σ' obs [] []
         | none => bad
       | ["shutdown", a] =>
         match parseAns a with
         | some ans =>
           let order := match field impl "ord" with | some q => parseList 's' q | none => []
-          let (σ', obs) := runCall σ (.shutdown order) .drain ans crashAt
+          let (σ', obs) := runCall σ (.shutdown order) .drain ans crashAt torn injs
           finishLine σ' obs [] []
         | none => bad
       | _ => bad
